@@ -87,6 +87,16 @@ CLAIMED = {
    note='Trusted: Coq kernel, rs2v translator, Spec/VP8L.v (hand transcription of the specification), extraction, the legal-stream generator of the harness (checked: libwebp accepts every stream).',
    technique='Coq proof (tables + kernels over source-regenerated definitions) + whole-stream correspondence against extracted Coq spec',
    ref='DESIGN.md section 6 C01'),
+ 'C15': dict(
+   text='Coq theorem arith_refines_rfc: for every byte string whose first byte is not 0xFF and every sequence of requests (bits with any probability, flags, literals <= 8 bits, optional '
+        'signed values, tree reads on all 111 VP8 trees) the model of the Rust decoder (fast speculative path + cold path) returns the values of the RFC 6386 section 7 reference decoder, and '
+        'reports exhaustion exactly when a request needs more than len+1 bytes; fast path = cold path for every read; no panic for every byte string (incl. 0xFF-leading). The first-byte-0xFF '
+        'class is excluded with a machine-checked counterexample (the reference itself is width-dependent there).',
+   note='Trusted: Coq kernel; hand model Model/ArithDec.v of vp8_arithmetic_decoder.rs tied by correspondence on op scripts through hook verif::arith_script (exhaustive for strings of length 0..2, '
+        'dense for 3, random 4..64); Spec/RfcBoolDec.v transcribes RFC 6386 section 7.3 (RFC text not available offline; cross-checked against libwebp-derived Spec/BoolDec.v on scripts); '
+        'prepare_branch/value_from_branch come from the translator.',
+   technique='Coq proof (refinement of two decoders to one ideal arithmetic-decoder state) + correspondence check on op scripts',
+   ref='DESIGN.md section 6 C15'),
 }
 PENDING = {}
 
